@@ -1,5 +1,158 @@
-(* AsyncIO.v — stub: replaced by the real decoder/runner when the property is built. *)
-From Coq Require Import List.
-From M Require Import Sx.
+(* AsyncIO.v — decoding of C07 cases and encoding of observations for the flat asynchronous
+   engine (Async.v); hierarchical cases (tag 1) are passed to the synchronous hierarchical
+   model (HsmIO), against which HierarchicalAsyncMachine is compared up to stage_view. *)
+From Coq Require Import List Arith Bool.
+From M Require Import Sx Base Flat FlatSpec FlatIO HsmIO Async.
 Import ListNotations.
-Definition run_async_case (x : sx) : sx := L [N 0].
+
+(* finite function keyed by (payload, callback), then by callback, then a default *)
+Fixpoint assoc2 {A} (l : list ((nat * nat) * A)) (p cb : nat) : option A :=
+  match l with
+  | [] => None
+  | ((p', cb'), v) :: r => if Nat.eqb p p' && Nat.eqb cb cb' then Some v else assoc2 r p cb
+  end.
+
+(* aenv := [default_ret; [[[payload; cb]; reply] ...]; [[cb; reply] ...]]; the nat argument of the
+   resulting env is the PAYLOAD of the event the callback serves *)
+Definition d_aenv (x : sx) : option env :=
+  match x with
+  | L [dflt; bykey; bycb] =>
+      do d <- d_bool dflt;
+      do bk <- d_list (d_pair (d_pair d_nat d_nat) d_reply) bykey;
+      do bc <- d_list (d_pair d_nat d_reply) bycb;
+      Some (fun cb p =>
+              match assoc2 bk p cb with
+              | Some r => r
+              | None => match assoc_nat bc cb with
+                        | Some r => r
+                        | None => mkReply d None []
+                        end
+              end)
+  | _ => None
+  end.
+
+(* susp := [[[[payload; cb]; k] ...]; [[cb; k] ...]]   (default 0) *)
+Definition d_susp (x : sx) : option (cbid -> nat -> nat) :=
+  match x with
+  | L [bykey; bycb] =>
+      do bk <- d_list (d_pair (d_pair d_nat d_nat) d_nat) bykey;
+      do bc <- d_list (d_pair d_nat d_nat) bycb;
+      Some (fun cb p =>
+              match assoc2 bk p cb with
+              | Some k => k
+              | None => match assoc_nat bc cb with Some k => k | None => 0 end
+              end)
+  | _ => None
+  end.
+
+Definition d_qmode (x : sx) : option qmode :=
+  match x with N 0 => Some QOff | N 1 => Some QAll | N 2 => Some QPerModel | _ => None end.
+
+Definition e_sev (e : sev) : sx :=
+  match e with
+  | SStart it => L (N 0 :: match e_item it with L l => l | x => [x] end)
+  | SEnd sl cb => L [N 1; e_slot sl; N cb]
+  end.
+Definition e_aresult (r : aresult) : sx :=
+  match r with
+  | AwRet b => L [N 0; e_bool b]
+  | AwExn e => L [N 1; e_exn e]
+  | AwNotAwaitable => L [N 1; L [N 9; N 0]]      (* TypeError at the await *)
+  end.
+
+Definition all_evs (tr : list stage) : list sev := flat_map sg_evs tr.
+
+(* block := [arrival id; model; event; payload; events (flat); stage_view; result] *)
+Section Enc.
+  Variable mc : machine.
+  Variable ev : env.
+
+  Definition e_ablock (b : ablock) : sx :=
+    L [N (ae_id (ab_entry b)); N (ae_model (ab_entry b)); N (ae_event (ab_entry b));
+       N (ae_payload (ab_entry b));
+       e_list e_sev (all_evs (ab_trace b)); e_list e_item (stage_view (ab_trace b));
+       e_aresult (ab_result b)].
+End Enc.
+
+Record acall := mkACall { ac_model : model; ac_kind : callkind; ac_event : event; ac_payload : nat }.
+Definition d_acall (x : sx) : option acall :=
+  match x with
+  | L [N m; N 0; N e; N a] => Some (mkACall m KTrigger e a)
+  | L [N m; N 1; N e; N a] => Some (mkACall m KMay e a)
+  | L [N m; N 2; N e; N a] => Some (mkACall m KMethod e a)
+  | _ => None
+  end.
+
+Definition e_states (w : aworld) : sx := e_list (e_pair e_nat e_nat) (aw_states w).
+
+Section Run.
+  Variable mc : machine.
+  Variable ev : env.
+  Variable suspf : cbid -> nat -> nat.
+  Variable md : qmode.
+
+  (* per top-level call: [blocks; result; model states; number of pending queue entries] *)
+  Definition pending (w : aworld) : nat := fold_right (fun kq n => length (snd kq) + n) 0 (aw_queues w).
+
+  Definition run_acall (fuel : nat) (w : aworld) (h : acall) : sx * aworld :=
+    match ac_kind h with
+    | KMay =>
+        let c := mkCtx (ac_model h) (ac_payload h) (m_send_event mc) in
+        let q := mkAE (aw_next w) (ac_model h) (ac_event h) (ac_payload h) in
+        match acan_trigger mc (fun cb => ev cb (ac_payload h)) (fun cb => suspf cb (ac_payload h)) c
+                           (ac_event h) (mstate_of w (ac_model h)) with
+        | (tr, s', r) =>
+            let w' := mkAW (set_mstate (aw_states w) (ac_model h) s') (aw_queues w) (S (aw_next w)) in
+            (L [L [e_ablock (mkAB q tr (aresult_of r))]; e_aresult (aresult_of r); e_states w'; N (pending w')], w')
+        end
+    | k =>
+        match k, lookup (m_events mc) (ac_event h) with
+        | KMethod, None =>
+            (* getattr(model, name) fails *)
+            let w' := mkAW (aw_states w) (aw_queues w) (S (aw_next w)) in
+            (L [L []; e_aresult (AwExn AttributeError); e_states w'; N (pending w')], w')
+        | _, _ =>
+            match atop_trigger mc ev suspf md fuel w (ac_model h) (ac_event h) (ac_payload h) with
+            | None => (L [N 9], w)
+            | Some (bs, r, w') => (L [e_list e_ablock bs; e_aresult r; e_states w'; N (pending w')], w')
+            end
+        end
+    end.
+
+  Fixpoint run_ahistory (fuel : nat) (hs : list acall) (w : aworld) : list sx :=
+    match hs with
+    | [] => []
+    | h :: rest => match run_acall fuel w h with (o, w') => o :: run_ahistory fuel rest w' end
+    end.
+
+  (* what the synchronous flat engine does on each top-level call when nothing is nested:
+     used for the model-level comparison of unqueued / call-free cases *)
+  Fixpoint run_sync_history (hs : list acall) (sts : list (model * state)) : list sx :=
+    match hs with
+    | [] => []
+    | h :: rest =>
+        let c := mkCtx (ac_model h) (ac_payload h) (m_send_event mc) in
+        let s := match lookup sts (ac_model h) with Some s => s | None => 0 end in
+        let e1 := fun cb (_ : nat) => ev cb (ac_payload h) in
+        match run_one mc e1 (ac_model h) (mkCall (ac_kind h) (ac_event h) (ac_payload h)) 0 s with
+        | (tr, s', r) =>
+            L [e_list e_item tr; e_result r; N s'] :: run_sync_history rest (set_mstate sts (ac_model h) s')
+        end
+    end.
+End Run.
+
+(* flat case := [0; machine; aenv; susp; mode; models [(id, initial state)];
+                 history [(model, kind, event, payload)]]
+   hierarchical case := [1; case of kind 3] *)
+Definition run_async_case (x : sx) : sx :=
+  match x with
+  | L [N 0; mcx; evx; sux; mdx; msx; hx] =>
+      match d_machine mcx, d_aenv evx, d_susp sux, d_qmode mdx,
+            d_list (d_pair d_nat d_nat) msx, d_list d_acall hx with
+      | Some mc, Some ev, Some su, Some md, Some ms, Some hs =>
+          L [N 1; L (run_ahistory mc ev su md 200 hs (mkAW ms [] 0)); L (run_sync_history mc ev hs ms)]
+      | _, _, _, _, _, _ => L [N 0]
+      end
+  | L [N 1; hx] => run_hsm_case hx
+  | _ => L [N 0]
+  end.
